@@ -41,12 +41,14 @@ class HistorySide:
         if self.forbid_write in written:
           raise WriteByPrint('running %s itself emits %s on %s' % (p, [n for n in ctx.notes], self.forbid_write))
       # what persists: the attached database (qualified names) and the extensional tables
-      store = dict(ctx.store)
+      store = sqlsem.persisting_store(ctx)
     self.final_store = store
     if self.want[0] == 'table':
-      if self.want[1] not in store:
+      # the table is looked for in the database *file* the program attaches
+      key = '%s::%s' % (DB_PLACEHOLDER, self.want[1].split('.')[-1])
+      if key not in store:
         raise TableMissing(self.want[1])
-      rel = store[self.want[1]]
+      rel = store[key]
     self.rel = rel
     self.assumptions = assumptions
     self.sql = '\n'.join('\n'.join(s) for s in self.scripts)
